@@ -62,6 +62,25 @@ def find_class(name):
 RESP_CLASSES = {}
 
 
+REQ_CLASSES = {}
+
+
+class GenericReq(UbxFrame):
+    NAME = 'req'
+
+    def __init__(self, cls_=0, id_=0, payload=b'', resp=None):
+        super().__init__()
+        self.CID = UbxCID(cls_, id_)
+        self._payload = bytes(payload)
+        self._resp = resp
+
+    def pack(self):
+        self.data = bytearray(self._payload)
+
+    def _cls_response(self):
+        return self._resp
+
+
 def make_req(cls_, id_, payload, resp):
     """synthetic request/response pair (resp = minimum decodable length) or a real poll class (resp = class name)"""
     if resp.isdigit():
@@ -85,32 +104,23 @@ def make_req(cls_, id_, payload, resp):
 
         RESP_CLASSES[(cls_, id_, minlen)] = Resp
     if resp.isdigit() and zlib.crc32(bytes([cls_, id_]) + bytes(payload)) % 4 == 0:
-
-        class G(UbxFrame):             # a generic request class: the class/id is set on the instance
-            NAME = 'req'
-
-            def __init__(self):
-                super().__init__()
-                self.CID = UbxCID(cls_, id_)
-
-            def pack(self):
-                self.data = bytearray(payload)
-
-            def _cls_response(self):
-                return Resp
-        return G()
+        return GenericReq(cls_, id_, payload, Resp)        # one generic request class: class/id, payload, response class on the instance
     if resp.isdigit():
+        # the same request class object whenever the same kind of request comes again (an application's frame classes are module-level)
+        key = (cls_, id_, bytes(payload), resp)
+        if key not in REQ_CLASSES:
 
-        class R(UbxFrame):
-            CID = UbxCID(cls_, id_)
-            NAME = 'req'
+            class R(UbxFrame):
+                CID = UbxCID(cls_, id_)
+                NAME = 'req'
 
-            def pack(self):
-                self.data = bytearray(payload)
+                def pack(self):
+                    self.data = bytearray(payload)
 
-            def _cls_response(self):
-                return Resp
-        return R()
+                def _cls_response(self):
+                    return Resp
+            REQ_CLASSES[key] = R
+        return REQ_CLASSES[key]()
     pc = poll_classes()[resp]
     if pc.__name__ == 'UbxCfgValGetPoll':
         keys = [int.from_bytes(payload[k:k + 4], 'little') for k in range(4, len(payload), 4)] or [0]
@@ -452,9 +462,13 @@ def noise(rng):
         return bytes(rng.randrange(256) for _ in range(rng.randrange(1, 6)))
     if k < 0.85:
         return b'\xb5'
-    f = bytearray(frame(5, 1, [6, 8]))
-    f[-1] ^= 0x10
-    return bytes(f)
+    # a run of frames that arrive damaged (what a line with a fault does for a while): acknowledgements, navigation data, anything
+    out = b''
+    for _ in range(rng.choice([1, 1, 2, 3, 4, 6])):
+        f = bytearray(rng.choice([frame(5, 1, [6, 8]), frame(5, 0, [6, 1]), frame(1, 7, rand_payload(rng, 6)), frame(0x13, 0x60, [1, 0, 0, 0x40, 0, 0, 0, 0])]))
+        f[-1] ^= 0x10
+        out += bytes(f)
+    return out
 
 
 def gen_srvedit(rng, n):
@@ -1145,7 +1159,7 @@ def gen_c06(rng):
                 extra.append({'kind': 'faf', 'cid': [6, 4], 'payload': rand_payload(rng, 4).hex(), 'resp': '0', 'tx': [True], 'timelines': [[]]})
         history = history + extra if rng.random() < 0.5 else extra + history
     # the answer
-    pre = b''.join(benign(rng, awaited, others) for _ in range(rng.choice([0, 0, 1, 2, 3] if not others else [1, 2, 3])))
+    pre = b''.join(benign(rng, awaited, others) for _ in range(rng.choice([0, 0, 1, 2, 3, 3, 7, 12] if not others else [1, 2, 3, 8])))
     if kind == 'set':
         if rng.random() < 0.75:
             ans, tag, apl = frame(5, 1, [cls_, id_]), 'UbxAckAck', bytes([cls_, id_])
@@ -1281,8 +1295,24 @@ def gen_sequence(rng):
         if rng.random() < 0.6:
             # … after which the application goes on with other settings (a shorter delay: what was armed before must not outlive the fault)
             reqs[sc['boom']['req'] + 1]['set'] = {'delay': rng.choice([1, 50, 125]), 'retries': rng.choice([0, 0, 1])}
-    elif rng.random() < 0.12 and len(reqs) > 1:
-        reqs[rng.randrange(1, len(reqs))]['set'] = {'delay': rng.choice([1, 125, 500, 1800]), 'retries': rng.randrange(0, 4)}
+    elif rng.random() < 0.2 and len(reqs) > 1:
+        # the application changes a setting between two requests: the number of retries, the delay, or both (each through its own
+        # setter) - and now and then what follows is the request before it once more, this time unanswered, so that the new setting is
+        # the only thing that bounds it (what the earlier request worked out for itself must not be what the later one runs on)
+        j = rng.randrange(1, len(reqs))
+        which = rng.choice(['retries', 'retries', 'delay', 'both'])
+        st = {}
+        if which in ('retries', 'both'):
+            st['retries'] = rng.choice([0, 0, 1, 2, 3])
+        if which in ('delay', 'both'):
+            st['delay'] = rng.choice([1, 125, 500, 1800])
+        if rng.random() < 0.5 and reqs[j - 1]['kind'] != 'faf' and not reqs[j - 1].get('retarget') and not reqs[j].get('retarget'):
+            again = json.loads(json.dumps(reqs[j - 1]))
+            again.pop('set', None)
+            again['timelines'] = [[] for _ in again['timelines']]
+            again['tx'] = [True for _ in again['tx']] + [True, True, True]
+            reqs.insert(j, again)
+        reqs[j]['set'] = st
     if rng.random() < 0.15:
         # another frame leaves through fire_and_forget() while a request of the sequence is waiting; the receiver may well
         # acknowledge THAT frame (an ACK naming another request)
@@ -1421,13 +1451,44 @@ def oracles_level(line, real_out):
     ok = off == real_out == part
     what = ('results and exceptions of parsing' if is_plain(line) else 'results, transmissions and exceptions of requests') + \
         ' are identical whether logging is disabled or set to DEBUG'
-    return [{'prop': 'C19', 'ok': ok, 'expected': off[:300], 'observed': (real_out if real_out != off else 'with DEBUG on some module loggers only: ' + part)[:300],
-             'what': what}], []
+    recs = [{'prop': 'C19', 'ok': ok, 'expected': off[:300], 'observed': (real_out if real_out != off else 'with DEBUG on some module loggers only: ' + part)[:300],
+             'what': what}]
+    p = line.split('|')
+    if not is_plain(line) and p[2] == 'ITEMS' and ' bytes=' in off:
+        canon = canonical_valset(p[3])
+        if canon is not None:
+            sent = off.split(' bytes=')[1].split(',')
+            same = all(x == canon.hex() for x in sent if x)
+            recs.append({'prop': 'C12', 'ok': same, 'expected': 'every transmission ' + canon.hex(), 'observed': 'ok' if same else off.split(' bytes=')[1][:300],
+                         'what': 'all (re)transmissions carry the canonical wire encoding of the request\'s field values at the time of the call'})
+    return recs, []
+
+
+def canonical_valset(spec):
+    """the wire bytes of a VALSET frame for hand-made items, from the protocol: None where an item cannot be encoded"""
+    from comp_codec import parse_items
+    pl = bytearray([0, 1, 0, 0])
+    for g, i, bits, sg, v in parse_items(spec):
+        code = {1: 1, 8: 2, 16: 3, 32: 4, 64: 5}.get(bits)
+        if code is None or not (0 <= g <= 255 and 0 <= i <= 4095):
+            return None
+        pl += ((code << 28) | (g << 16) | i).to_bytes(4, 'little')
+        if bits == 1:
+            pl += bytes([1 if v else 0])
+        else:
+            try:
+                pl += v.to_bytes(bits // 8, 'little', signed=sg)
+            except OverflowError:
+                return None
+    return frame(6, 0x8a, bytes(pl))
 
 
 def gen_level(rng, n, profile):
     from comp_codec import CLASSES, payload_for, wellformed
     import comp_parsers
+    if profile == 'items':
+        yield from gen_level_items(rng, n)
+        return
     # parsing at DEBUG: with and without a filter (a parser that was never given one), every kind of stream
     for ln in comp_parsers.gen_ubx1(rng, max(30, n // 2), "mixed"):
         if rng.random() < 0.3:
@@ -1474,10 +1535,15 @@ def gen_level(rng, n, profile):
             rx.insert(0, (1, frame(0x13, 0x60, [1, 0, 0, i, 0, 0, 0, 0]) if kind == 'mga' else frame(5, 1, [c, i])))
         yield '|'.join(['level', kind, name, h, edits, str(retries), str(delay), ','.join('1' if rng.random() < .9 else '0' for _ in range(retries + 1)),
                         ','.join(f'{dt}:{d.hex()}' for dt, d in rx)] + ([again, hist] if hist else [again] if again else []))
-    # VALSET frames from items made by hand (their sign flag need not be the key table's), the frame sent once or several times
+    yield from gen_level_items(rng, max(12, n // 8))
+
+
+def gen_level_items(rng, count):
+    """VALSET frames from items made by hand (their sign flag need not be the key table's; a 1-bit item may hold any integer - what goes
+    on the wire is its truth value), the frame sent once or several times"""
     from comp_codec import published_keys
     keys = published_keys()
-    for k in range(max(12, n // 8)):
+    for k in range(count):
         items = []
         for _ in range(rng.randrange(1, 4)):
             if rng.random() < 0.75:
@@ -1487,7 +1553,8 @@ def gen_level(rng, n, profile):
                 g, i, bits = rng.randrange(256), rng.randrange(4096), rng.choice([1, 8, 16, 32, 64])
             sg = rng.random() < 0.5
             w = max(bits, 8)
-            v = rng.choice([0, 1, 2 ** (w - 1) - 1, 2 ** (w - 1), 2 ** w - 1, -1, -2 ** (w - 1), rng.randrange(2 ** w)]) if bits > 1 else rng.choice([0, 1])
+            v = rng.choice([0, 1, 2 ** (w - 1) - 1, 2 ** (w - 1), 2 ** w - 1, -1, -2 ** (w - 1), rng.randrange(2 ** w)]) if bits > 1 else \
+                rng.choice([0, 1, 0, 1, 2, 4, 0x80, 255, 256, -1])
             items.append(f'{g},{i},{bits},{int(sg)},{v}')
         retries = rng.randrange(0, 2)
         rx = [(rng.choice([1, 5, 50]), frame(5, 1, [6, 0x8a])) for _ in range(rng.randrange(0, 4))]
@@ -1749,7 +1816,17 @@ def gen_scan1(rng, n, profile):
                 f = bytearray(frame(5, 1, [6, 1]))
                 f[rng.randrange(2, len(f))] ^= 4
                 stream += f
-        if rng.random() < .15:                                         # noise as received at a wrong bit rate
+        long_run = rng.random() < .06
+        if long_run:
+            # a long run of frames that arrive damaged - more than any queue was ever meant to hold, nobody collects them during a
+            # scan - and then traffic that is fine
+            stream = bytearray()
+            for _ in range(rng.choice([8, 15, 16, 17, 33, 70])):
+                f = bytearray(frame(rng.choice([1, 5, 6]), rng.randrange(4), bytes(rng.randrange(256) for _ in range(rng.choice([0, 2, 4])))))
+                f[-1] ^= 1 << rng.randrange(8)
+                stream += f
+            stream += frame(1, 7, b'abcd') + bytes(rng.randrange(3)) + frame(5, 1, [6, 1]) + (nm if rng.random() < .3 else b'')
+        elif rng.random() < .15:                                         # noise as received at a wrong bit rate
             stream = bytearray((b << 1) & 0xff | (b >> 7) for b in stream)
         script = []
         for b in stream:
@@ -1758,6 +1835,8 @@ def gen_scan1(rng, n, profile):
             script.append((rng.choice([1, 1, 1, 2, 7, 40]), b))
         total = sum(max(1, d) for d, _ in script)
         interval = rng.choice([0, 10, 50, 100, 200, 1536, 3072, total, max(0, total - 1), total + 1])
+        if long_run and rng.random() < .8:
+            interval = total + rng.choice([1, 50, 1000])
         yield f'scan|{interval}|' + ','.join(f'{dt}:{"-" if b is None else b}' for dt, b in script)
 
 
